@@ -69,6 +69,7 @@ type fctx struct {
 	hidden   []types.Object // hidden index variables of enclosing range loops (innermost last)
 	defers   []deferRec     // deferred delete(m, k) on local maps, applied at the merged exit
 	escaped  map[string]ast.Expr // pointers handed to abstract callees behind an interface (may be written later)
+	copiedPtr map[types.Object]bool // locals/fields that receive a COPY of an existing pointer in this function
 }
 
 type deferRec struct {
@@ -856,9 +857,211 @@ func (x *Exec) execAssign(s *ast.AssignStmt, env *Env) *Env {
 				}
 			}
 		}
+		x.sharedPointerWrite(l, env)
 		x.assign(l, vals[i], env)
 	}
 	return env
+}
+
+// ---------------------------------------------------------------------
+// Writes through copied pointers (soundness of the owned-box model, assumption A5)
+//
+// Pointers are modelled as owned boxes: copying a pointer copies the box.  Where the function itself COPIES a pointer
+// from one place to another (p := q, for _, p := range ps, T{F: p}, x.F = p with p not freshly allocated) and later
+// writes through the copy (copy.f = v), the real program also changes the object the original pointer refers to.
+// The model cannot say which one, so at such a write every variable that holds pointers to the same struct type
+// becomes unknown (slices keep their length).  Proofs that need the old contents after such a write fail - which is
+// the sound answer for code that aliases.
+
+func (x *Exec) copiedPointers() map[types.Object]bool {
+	if x.cx.copiedPtr != nil {
+		return x.cx.copiedPtr
+	}
+	info := x.cx.info
+	out := map[types.Object]bool{}
+	isModPtr := func(t types.Type) bool {
+		if t == nil {
+			return false
+		}
+		pt, ok := t.Underlying().(*types.Pointer)
+		if !ok {
+			return false
+		}
+		n, ok := pt.Elem().(*types.Named)
+		if !ok || n.Obj().Pkg() == nil {
+			return false
+		}
+		_, isStruct := n.Underlying().(*types.Struct)
+		return isStruct && x.P.ByName[n.Obj().Pkg().Name()] != nil
+	}
+	fresh := func(e ast.Expr) bool {
+		switch v := ast.Unparen(e).(type) {
+		case *ast.UnaryExpr:
+			return v.Op == token.AND
+		case *ast.CallExpr:
+			return true
+		case *ast.Ident:
+			return v.Name == "nil"
+		}
+		return false
+	}
+	record := func(target ast.Expr) {
+		switch t := ast.Unparen(target).(type) {
+		case *ast.Ident:
+			if o := info.Defs[t]; o != nil {
+				out[o] = true
+			} else if o := info.Uses[t]; o != nil {
+				out[o] = true
+			}
+		case *ast.SelectorExpr:
+			if sel, ok := info.Selections[t]; ok && sel.Kind() == types.FieldVal {
+				out[sel.Obj()] = true
+			}
+		}
+	}
+	ast.Inspect(x.cx.fi.Decl.Body, func(n ast.Node) bool {
+		switch s := n.(type) {
+		case *ast.AssignStmt:
+			if len(s.Lhs) == len(s.Rhs) {
+				for i := range s.Lhs {
+					if isModPtr(info.TypeOf(s.Rhs[i])) && !fresh(s.Rhs[i]) {
+						record(s.Lhs[i])
+					}
+				}
+			}
+		case *ast.KeyValueExpr:
+			// (the value variable of a range over a slice of pointers is modelled exactly: writes through it are
+			// written back to the element)
+			if isModPtr(info.TypeOf(s.Value)) && !fresh(s.Value) {
+				if id, ok := s.Key.(*ast.Ident); ok {
+					if o := info.Uses[id]; o != nil {
+						out[o] = true
+					}
+				}
+			}
+		}
+		return true
+	})
+	x.cx.copiedPtr = out
+	return out
+}
+
+func (x *Exec) sharedPointerWrite(l ast.Expr, env *Env) {
+	if x.termMode || x.cx == nil || x.cx.fi == nil {
+		return
+	}
+	info := x.cx.info
+	copied := x.copiedPointers()
+	if len(copied) == 0 {
+		return
+	}
+	// the lvalue must be a field/element write: walk the components it goes THROUGH
+	cur := ast.Unparen(l)
+	first := true
+	for {
+		var next ast.Expr
+		switch v := cur.(type) {
+		case *ast.SelectorExpr:
+			next = v.X
+			if !first {
+				if sel, ok := info.Selections[v]; ok && sel.Kind() == types.FieldVal && copied[sel.Obj()] {
+					x.havocPointeesOf(info.TypeOf(v), env, types.ExprString(l))
+					return
+				}
+			}
+		case *ast.IndexExpr:
+			next = v.X
+		case *ast.StarExpr:
+			next = v.X
+		case *ast.ParenExpr:
+			next = v.X
+		case *ast.Ident:
+			if !first {
+				o := info.Uses[v]
+				if o != nil && copied[o] {
+					x.havocPointeesOf(info.TypeOf(v), env, types.ExprString(l))
+				}
+			}
+			return
+		default:
+			return
+		}
+		first = false
+		cur = ast.Unparen(next)
+	}
+}
+
+func (x *Exec) havocPointeesOf(ptrT types.Type, env *Env, what string) {
+	pt, ok := ptrT.Underlying().(*types.Pointer)
+	if !ok {
+		return
+	}
+	target := pt.Elem()
+	var contains func(t types.Type, depth int) bool
+	contains = func(t types.Type, depth int) bool {
+		if depth > 4 {
+			return false
+		}
+		switch u := t.(type) {
+		case *types.Pointer:
+			return types.Identical(u.Elem(), target) || contains(u.Elem(), depth+1)
+		case *types.Slice:
+			return contains(u.Elem(), depth+1)
+		case *types.Array:
+			return contains(u.Elem(), depth+1)
+		case *types.Map:
+			return contains(u.Elem(), depth+1)
+		case *types.Named:
+			if st, ok := u.Underlying().(*types.Struct); ok {
+				if types.Identical(u, target) {
+					return false // a struct VALUE of the type is not reachable through another pointer
+				}
+				for i := 0; i < st.NumFields(); i++ {
+					if contains(st.Field(i).Type(), depth+1) {
+						return true
+					}
+				}
+				return false
+			}
+			return contains(u.Underlying(), depth+1)
+		}
+		return false
+	}
+	var objs []types.Object
+	for o := range env.vars {
+		if contains(o.Type(), 0) {
+			objs = append(objs, o)
+		}
+	}
+	sort.Slice(objs, func(i, j int) bool { return objs[i].Pos() < objs[j].Pos() })
+	n := 0
+	for _, o := range objs {
+		cur := env.vars[o]
+		nv := x.fresh(o.Name(), o.Type())
+		if nv.Sort != cur.Sort {
+			continue
+		}
+		if x.W.IsSeq(cur.Sort) {
+			// same slice header, unknown elements
+			if b, ok := x.W.Field(nv, "base"); ok {
+				if keep, ok := x.W.WithField(cur, "base", b); ok {
+					keep.GoT = cur.GoT
+					nv = keep
+				}
+			}
+		} else {
+			pn := "isnilptr_" + sanitize(string(cur.Sort))
+			if _, isPtr := o.Type().Underlying().(*types.Pointer); isPtr {
+				x.W.DeclareFun(pn, []Sort{cur.Sort}, SBool)
+				x.W.AddFact(env.pc, Eq(T("("+pn+" "+nv.S+")", SBool), T("("+pn+" "+cur.S+")", SBool)))
+			}
+		}
+		env.vars[o] = nv
+		n++
+	}
+	if n > 0 {
+		x.W.Note(fmt.Sprintf("write through a copied pointer (%s): %d variable(s) that may hold the same %s object are unknown afterwards", what, n, types.TypeString(target, nil)))
+	}
 }
 
 // assign stores v into the lvalue l (functional update of the root variable).
